@@ -8,7 +8,9 @@ From Coq Require Import String Ascii ZArith QArith Bool Arith List.
 From GT Require Import Base.UTree Spec.NewickSpec Model.MultiTree Model.Nexus Model.Clade
      Proofs.MultiTree Proofs.MultiTreeSkip Proofs.MultiTreeSpec Proofs.NexusRoundExamples Proofs.NexusTotal Proofs.NexusFirst Proofs.Clade
      Model.Newick Model.NewickNum Proofs.NewickCanon Proofs.NewickNumC Proofs.NexusWords Proofs.NexusRoundTrip Proofs.NexusRoundTripMain
-     Proofs.NexusRoundTripC01 Proofs.NexusRoundTripTr Proofs.NexusRoundTripExample Proofs.NewickFirst Proofs.NexusRename.
+     Proofs.NexusRoundTripC01 Proofs.NexusRoundTripTr Proofs.NexusRoundTripExample Proofs.NewickFirst Proofs.NexusRename
+     Proofs.NexusNewickText Proofs.NexusDomain Proofs.NexusProperty Proofs.NexusTranslate Proofs.NexusPrinted
+     Proofs.NexusTranslateProperty Proofs.C13Property Proofs.C13PropertyExample.
 Import ListNotations.
 Local Close Scope Q_scope.
 Local Open Scope string_scope.
@@ -264,3 +266,112 @@ Theorem C13_translate_keeps_rose : forall m tbl t u,
     rose_eqb (rose_of (rename_nodes tbl u)) (rose_of t) = true.
 Proof. exact translate_rose. Qed.
 Print Assumptions C13_translate_keeps_rose.
+
+(** * The common domain, stated on the trees themselves, and the assembled conversion theorem.
+    [plain_root t]: no comment; tip names are Nexus labels (one token, identifier or number:
+    no blank, bracket, '=', ';', ',', not a keyword), inner names identifier bytes.
+    [in_domain labels t]: inside C01's quantifier, plain, exactly the taxa [labels].
+    [in_domain_tr]: moreover distinct node names, and inner/root names empty or neither a
+    label nor a decimal number (Tree.Rename would replace them).  [c13_domain]: moreover no
+    p-value.  Lists whose trees are on different taxon sets are outside (open finding
+    C13-nexus-taxa-union). *)
+
+(** (1) inside the domain the writer's text is readable inside a TREE command: no hypothesis
+    on the text is needed *)
+Theorem C13_newick_text_readable_in_nexus :
+  forall (fmt : Q -> string) (numeric : string -> bool) (numok : Q -> bool),
+    (forall x, numok x = true -> all_chars wchar (fmt x) = true) ->
+    forall t, wfN numeric numok t = true -> plain_root t = true -> newick_ok (Newick.write fmt t) = true.
+Proof. exact newick_ok_domain. Qed.
+Print Assumptions C13_newick_text_readable_in_nexus.
+
+(** (2) the tree the Newick parser reads back has the tips of the tree, in order *)
+Theorem C13_parsed_tree_has_the_tips :
+  forall (fmt : Q -> string) (numeric : string -> bool) (parse_num : string -> option Q) (numok : Q -> bool) t,
+    wfN numeric numok t = true -> tip_names (canon_root fmt parse_num t) = tip_names t.
+Proof. exact tips_canon_root. Qed.
+Print Assumptions C13_parsed_tree_has_the_tips.
+
+(** (3) Rename's two no-duplicate tests pass in both directions of the translate chain, and
+    the trees as printed (tips renamed to decimal numbers) stay inside C01's quantifier *)
+Theorem C13_rename_succeeds : forall m tbl t,
+    Forall (inverse_on m tbl) (map uname (nodes t)) ->
+    NoDup (ne_names t) -> NoDup (tip_names t) ->
+    rename_tree m t = inl (rename_nodes m t).
+Proof. exact rename_tree_ok. Qed.
+Print Assumptions C13_rename_succeeds.
+
+Theorem C13_rename_back_succeeds : forall m tbl t u,
+    Forall (inverse_on m tbl) (map uname (nodes t)) ->
+    NoDup (ne_names t) -> NoDup (tip_names t) ->
+    map uname (nodes u) = map uname (nodes (rename_nodes m t)) ->
+    tip_names u = tip_names (rename_nodes m t) ->
+    rename_tree tbl u = inl (rename_nodes tbl u) /\ tip_names (rename_nodes tbl u) = tip_names t.
+Proof. exact rename_back_ok. Qed.
+Print Assumptions C13_rename_back_succeeds.
+
+Theorem C13_printed_tree_in_c01_domain :
+  forall (numeric : string -> bool) (numok : Q -> bool) m t,
+    wfN numeric numok t = true -> Forall (node_keep m) (nodes t) ->
+    wfN numeric numok (rename_nodes m t) = true.
+Proof. exact wfN_rename. Qed.
+Print Assumptions C13_printed_tree_in_c01_domain.
+
+(** Newick -> Nexus -> Newick on the domain, without and with a translate table *)
+Theorem C13_nexus_round_trip_domain :
+  forall (fmt : Q -> string) (numeric : string -> bool) (parse_num : string -> option Q) (numok : Q -> bool),
+    strconv_ok fmt numeric parse_num numok ->
+    (forall x, numok x = true -> all_chars wchar (fmt x) = true) ->
+    forall (l : list (nat * utree)),
+      (Z.of_nat (length (final_map l [])) < two63)%Z ->
+      Forall (fun it => in_domain numeric numok (labels_of l) (snd it)) l ->
+      exists ts',
+        nexus_parse (np_newick numeric parse_num) (write_nexus (Newick.write fmt) false l) =
+        Nexus.POk (mkDoc (combine (map (fun it => "tree" ++ itoa (fst it)) l) ts') false) /\
+        Forall2 (fun it t' => rose_eqb (rose_of t') (rose_of (snd it)) = true) l ts'.
+Proof. exact nexus_round_trip_domain. Qed.
+Print Assumptions C13_nexus_round_trip_domain.
+
+Theorem C13_nexus_round_trip_translate_domain :
+  forall (fmt : Q -> string) (numeric : string -> bool) (parse_num : string -> option Q) (numok : Q -> bool),
+    strconv_ok fmt numeric parse_num numok ->
+    (forall x, numok x = true -> all_chars wchar (fmt x) = true) ->
+    forall (l : list (nat * utree)),
+      (Z.of_nat (length (final_map l [])) < two63)%Z ->
+      Forall (fun it => in_domain_tr numeric numok (labels_of l) (snd it)) l ->
+      exists ts',
+        nexus_parse (np_newick numeric parse_num) (write_nexus (Newick.write fmt) true l) =
+        Nexus.POk (mkDoc (combine (map (fun it => "tree" ++ itoa (fst it)) l) ts') false) /\
+        Forall2 (fun it t' => rose_eqb (rose_of t') (rose_of (snd it)) = true) l ts'.
+Proof. exact nexus_round_trip_translate_domain. Qed.
+Print Assumptions C13_nexus_round_trip_translate_domain.
+
+(** (4) the conversion clauses of C13 together: for every list of trees in the common domain,
+    Newick -> Nexus (with and without translate) -> Newick returns the same roses (shape, child
+    order, names, lengths, supports) in order under the names tree0, tree1, ... read back
+    with ids 0, 1, ... (C13_nexus_ids_consecutive), and Newick -> PhyloXML -> Newick returns
+    shape, names, lengths and supports of every tree.  Assumptions on strconv: C01's
+    [strconv_ok], and printed numbers contain no '='. *)
+Theorem C13_conversions :
+  forall (fmt : Q -> string) (numeric : string -> bool) (parse_num : string -> option Q) (numok : Q -> bool),
+    strconv_ok fmt numeric parse_num numok ->
+    (forall x, numok x = true -> all_chars (fun c => negb (Ascii.eqb c "=")) (fmt x) = true) ->
+    forall (l : list (nat * utree)),
+      (Z.of_nat (length (final_map l [])) < two63)%Z ->
+      Forall (fun it => c13_domain numeric numok (labels_of l) (snd it)) l ->
+      (forall translate : bool,
+          exists ts',
+            nexus_parse (np_newick numeric parse_num) (write_nexus (Newick.write fmt) translate l) =
+            Nexus.POk (mkDoc (combine (map (fun it => "tree" ++ itoa (fst it)) l) ts') false) /\
+            Forall2 (fun it t' => rose_eqb (rose_of t') (rose_of (snd it)) = true) l ts') /\
+      Forall (fun it => exists t', clade_to_tree (write_clade None (snd it)) = inl t' /\
+                                   rose_eqb (rose_of t') (rose_of (snd it)) = true) l.
+Proof. exact c13_conversions_strconv. Qed.
+Print Assumptions C13_conversions.
+
+(** the common domain is inhabited (executable strconv model of C01; two trees with lengths
+    and a support on the taxa a, b, c) *)
+Example C13_domain_inhabited :
+  Forall (fun it => c13_domain numericC numokC (labels_of ex_list) (snd it)) ex_list.
+Proof. exact ex_domain. Qed.
+Print Assumptions C13_domain_inhabited.
